@@ -10,8 +10,17 @@
      * the ASCII case maps preserve length, are idempotent and are inverse on letters.
    Emit prints, per string: CStr(s), whether it is well-formed, its scalar values and UTF-16 form if it is, the
    C-locale case maps if it is ASCII, and two partner strings for the case-insensitive comparison (ASCII case of
-   every letter flipped: equal on ASCII; the string without its last byte: not equal on ASCII).                              *)
-EXTENDS Utf, TLC, Json
+   every letter flipped: equal on ASCII; the string without its last byte: not equal on ASCII).
+
+   Growth: the same strings also drive the *lax* model of the library's loops (UtfLax.tla) and of its case functions
+   (UtfCase.tla).  Invariant LaxLaws: every loop step consumes 1..4 bytes and stays inside the C string (termination
+   variant), results are bounded, the lax loops agree with the strict decoders on well-formed text, case mapping
+   never grows, keeps well-formed text well-formed, is the C locale on ASCII, and equalsNocase is equality of the
+   lower-cased forms (for the string and both partners).  Emit adds field lx: what each library function must
+   return on this very string, well-formed or not (compared exactly by the replayer).  The *_case configurations
+   use an alphabet of the bytes of letters around the case table (A a, C3 89/A9, C8 BA, CE A3, CF 82/83, D6 86/87/88
+   = the cut-over at 1415, E2 B1, F0, FF) so that mapped, unmapped and ill-formed sequences mix.                  *)
+EXTENDS UtfCase, TLC, Json
 CONSTANTS Alpha, MaxLen
 VARIABLES s
 Init == s = <<>>
@@ -52,6 +61,20 @@ CStrOK == /\ \A i \in 1..Len(Z) : Z[i] # 0
           /\ Len(Z) <= Len(s)
           /\ (Len(Z) < Len(s) => s[Len(Z) + 1] = 0)
 
+P(t) == [i \in 1..Len(t) |-> IF t[i] >= 97 /\ t[i] <= 122 THEN t[i] - 32 ELSE IF t[i] >= 65 /\ t[i] <= 90 THEN t[i] + 32 ELSE t[i]]
+Q(t) == IF t = <<>> THEN <<>> ELSE SubSeq(t, 1, Len(t) - 1)
+LaxLaws == LET l == LowerBytes(Z)  q == Q(Z)  lq == LowerBytes(q) IN
+           /\ StepsOK(Z) /\ BoundedOK(Z) /\ StrictOK(Z)
+           /\ CaseLaws(Z)
+           /\ EqualsNocase(Z, P(Z)) = (l = LowerBytes(P(Z)))
+           /\ EqualsNocase(Z, q) = (l = lq) /\ EqualsNocase(q, Z) = (lq = l)
+           /\ EqualsNocase(Z, l) = (l = LowerBytes(l))
+           /\ EqualsNocase(Z, UpperBytes(Z)) = (l = LowerBytes(UpperBytes(Z)))
+           /\ EqualsNocase(Z, Z)
+Lx(t) == [it |-> EnumSeq(t), c32 |-> U32Seq(t), w |-> U16Seq(t), dw |-> CStr(U16Seq(t)), b8 |-> W8Seq(U16Seq(t)),
+          n |-> CountOf(t), rt |-> FromCodes(U32Seq(t)), up |-> UpperBytes(t), lo |-> LowerBytes(t),
+          eqp |-> EqualsNocase(t, P(t)), eqq |-> EqualsNocase(t, Q(t)), eqr |-> EqualsNocase(Q(t), t)]
+
 Flip(t) == [i \in 1..Len(t) |-> IF t[i] >= 97 /\ t[i] <= 122 THEN t[i] - 32 ELSE IF t[i] >= 65 /\ t[i] <= 90 THEN t[i] + 32 ELSE t[i]]
 Rec(t) == LET d == Dec8Seq(t) IN
           [k |-> "bytes", z |-> t, wf |-> d.ok, cs |-> d.cs, w |-> Enc16Seq(d.cs),
@@ -60,6 +83,7 @@ Rec(t) == LET d == Dec8Seq(t) IN
            lo |-> IF IsAscii(t) THEN AsciiLower(t) ELSE <<>>,
            p |-> Flip(t),                                                    \* partners for equalsNocase: case flipped,
            q |-> IF t = <<>> THEN <<>> ELSE SubSeq(t, 1, Len(t) - 1),        \* and a proper prefix (never equal for ASCII)
+           lx |-> Lx(t),
            \* hazard tag: the string ends in the lead byte of a two-byte sequence (110xxxxx) whose continuation is missing
            hz |-> IF t # <<>> /\ t[Len(t)] >= 192 /\ t[Len(t)] <= 223 THEN {"CountTruncatedLead"} ELSE {}]
 Emit == PrintT(ToJson(Rec(CStr(s'))))
